@@ -193,7 +193,7 @@ def build_annotated_module(rng, idx: int, n: int):
 def gen(tier: str, seed: int) -> list[Case]:
     rng = rng_for(seed, PID, "gen")
     gated = gated_features()
-    n = 4 if tier == "quick" else 60
+    n = 4 if tier == "quick" else 320
     cases = []
     for i in range(n):
         files = {"src/pk/__init__.py": "", "src/pk/m2.py": "class Other:\n    pass\n"}
